@@ -34,7 +34,23 @@ fn main() {
     };
     let mut summary = BTreeMap::new();
     for u in units {
-        let res = emit::emit_unit(&db, &contracts, &u);
+        // nested unit  Outer__Inner[__Inner2]: monomorphised instantiation Outer<Inner<..>, F>
+        let res = if let Some((outer, inner)) = u.split_once("__") {
+            let mut cur = db.clone();
+            // innermost first
+            let levels: Vec<&str> = inner.split("__").collect();
+            let mut inner_name = levels[levels.len() - 1].to_string();
+            for lv in levels[..levels.len() - 1].iter().rev() {
+                let (d2, n2) = cur.with_nested(lv, &inner_name);
+                cur = d2;
+                inner_name = n2;
+            }
+            let (d2, n2) = cur.with_nested(outer, &inner_name);
+            assert_eq!(n2, u);
+            emit::emit_unit(&d2, &contracts, &u)
+        } else {
+            emit::emit_unit(&db, &contracts, &u)
+        };
         std::fs::write(format!("{outdir}/{u}.exec.rs"), &res.exec).unwrap();
         std::fs::write(format!("{outdir}/{u}.mirror.rs"), &res.mirror).unwrap();
         std::fs::write(format!("{outdir}/{u}.iface.rs"), &res.iface).unwrap();
